@@ -567,7 +567,7 @@ def oracle_expression(src, planted_names):
 
 def shrink_expression(rng_seed, names, src, planted_names):
     """try to find a smaller expression of the same failure: single planted reference in small contexts"""
-    contexts = ["{R}", "{R}.x", "f({R})", "x.f({R})", "[{R}]", "{{'k': {R}}}", "x[{R}]", "({R})", "!{R}",
+    contexts = ["{R}", "{R}.x", "f({R})", "x.f({R})", "[{R}]", "{'k': {R}}", "x[{R}]", "({R})", "!{R}",
                 "a ? {R} : b", "a + {R}", "x.map(i, {R})", "has({R}.y)", "f(1).z + {R}", "x.f().y + {R}",
                 "{R} + x.f().y", "[1, 2][0] + {R}", "{R}[0]", "{R}.f().y"]
     for name in planted_names:
@@ -949,10 +949,42 @@ def named_logic(spec):
     return want
 
 
+def nameless_step_keys(spec):
+    """extracted keys (real extractor, real regex) of the steps' expressions for which the regex's
+    group `name` is None"""
+    from koreo.cel.structure_extractor import extract_argument_structure
+    from koreo.workflow import prepare as wp
+    out = []
+    for st in spec["steps"]:
+        fields = [(st.get("skipIf"), False), ((st.get("forEach") or {}).get("itemIn"), False),
+                  (st.get("inputs"), True), (st.get("state"), True),
+                  ((st.get("refSwitch") or {}).get("switchOn"), False)]
+        for f, is_map in fields:
+            if not f:
+                continue
+            try:
+                fo = field_of(f, is_map)
+                if fo[0] != "expr":
+                    continue
+                for k in extract_argument_structure(to_lark(fo[1])):
+                    m = wp.STEPS_NAME_PATTERN.match(k)
+                    if m and m.group("name") is None:
+                        out.append(k)
+            except Exception:  # noqa: BLE001
+                continue
+    return sorted(set(out))
+
+
 def oracle_workflow(spec, planted, obs, gate):
     """property text on one workflow.  Returns (signature, what, detail) or None."""
     labels = [s["label"] for s in spec["steps"]]
     if obs[0] == "raised":
+        nameless = nameless_step_keys(spec)
+        if obs[1] == "TypeError" and nameless:
+            return ("prepare_workflow raises TypeError: a key matches STEPS_NAME_PATTERN without a name",
+                    f"prepare_workflow raised TypeError instead of returning; extracted keys {nameless} match "
+                    "STEPS_NAME_PATTERN with group 'name' = None, which ', '.join() cannot format",
+                    {"keys": nameless})
         return (f"prepare_workflow raises {obs[1]}", f"prepare_workflow raised {obs[1]} instead of returning", None)
     if obs[0] == "rejected":
         return None
@@ -1170,37 +1202,15 @@ def check_workflow(ctx, spec, planted, bucket="workflow"):
 
 
 def minimise_workflow(sig):
-    """look for a tiny workflow with the same oracle failure (templates: 2-3 steps, one reference)"""
-    fields = ["inputs", "skipIf", "forEach", "state", "switchOn"]
-    for field in fields:
-        for form in ("steps.%s", "steps['%s']", 'steps["%s"]'):
-            for ctxt in ("{R}", "{R}.x", "f({R})", "[{R}]", "x.map(i, {R}.y)", "x.f().y + {R}", "a ? b : {R}"):
-                for target in ("aaa", "bbb", "ccc", "ghost"):
-                    e = "=" + ctxt.replace("{R}", form % target)
-                    a = {"label": "aaa", "ref": {"kind": "ValueFunction", "name": "vf-ok-b"}}
-                    b = {"label": "bbb", "ref": {"kind": "ValueFunction", "name": "vf-ok-b"}}
-                    c = {"label": "ccc", "ref": {"kind": "ValueFunction", "name": "vf-ok-b"}}
-                    if field == "inputs":
-                        b["inputs"] = {"a": e}
-                    elif field == "skipIf":
-                        b["skipIf"] = e
-                    elif field == "forEach":
-                        b["forEach"] = {"itemIn": e, "inputKey": "item"}
-                    elif field == "state":
-                        b["state"] = {"s": e}
-                    else:
-                        del b["ref"]
-                        b["refSwitch"] = {"switchOn": e, "cases": [{"case": "a", "kind": "ValueFunction",
-                                                                    "name": "vf-ok-b"}]}
-                    spec = {"steps": [a, b, c]}
-                    planted = [[], [(target, field)], []]
-                    try:
-                        obs, gate, _ = run_workflow(spec)
-                        bad = oracle_workflow(spec, planted, obs, gate)
-                    except Exception:  # noqa: BLE001
-                        continue
-                    if bad and bad[0] == sig:
-                        return {"spec": spec, "planted": planted}
+    """look for a tiny workflow with the same oracle failure (templates: 3 steps, one reference)"""
+    for spec, planted in small_scope(False):
+        try:
+            obs, gate, _ = run_workflow(spec)
+            bad = oracle_workflow(spec, planted, obs, gate)
+        except Exception:  # noqa: BLE001
+            continue
+        if bad and bad[0] == sig:
+            return {"spec": spec, "planted": planted}
     # watch-list failures: one step naming a missing function
     for st in ({"label": "aaa", "ref": {"kind": "ValueFunction", "name": "vf-missing"}},
                {"label": "aaa", "refSwitch": {"switchOn": "=parent.k", "cases": [
@@ -1215,6 +1225,75 @@ def minimise_workflow(sig):
         if bad and bad[0] == sig:
             return {"spec": spec, "planted": [[]]}
     return None
+
+
+SMALL_FIELDS = ["inputs", "skipIf", "forEach", "state", "switchOn"]
+SMALL_FORMS = ["steps.%s", "steps['%s']", 'steps["%s"]']
+SMALL_CONTEXTS = ["{R}", "{R}.x", "f({R})", "[{R}]", "x.map(i, {R}.y)", "x.f().y + {R}", "a ? b : {R}",
+                  "{'k': {R}}", "x[{R}]", "({R})", "!{R}", "has({R}.y)", "{R}[0].z", "{R}.f().y", "T{a: {R}}",
+                  "[1, 2][0] + {R}", "x.f(1, {R})", "-{R}", "a in {R}", "x[size(x) - 1] + {R}"]
+
+
+def small_workflow(field, form, context, target):
+    """three steps aaa, bbb, ccc; step bbb carries one reference to `target` in `field`"""
+    e = "=" + context.replace("{R}", form % target)
+    a = {"label": "aaa", "ref": {"kind": "ValueFunction", "name": "vf-ok-b"}}
+    b = {"label": "bbb", "ref": {"kind": "ValueFunction", "name": "vf-ok-b"}}
+    c = {"label": "ccc", "ref": {"kind": "ValueFunction", "name": "vf-ok-b"}}
+    if field == "inputs":
+        b["inputs"] = {"a": e}
+    elif field == "skipIf":
+        b["skipIf"] = e
+    elif field == "forEach":
+        b["forEach"] = {"itemIn": e, "inputKey": "item"}
+    elif field == "state":
+        b["state"] = {"s": e}
+    else:
+        del b["ref"]
+        b["refSwitch"] = {"switchOn": e, "cases": [{"case": "a", "kind": "ValueFunction", "name": "vf-ok-b"}]}
+    return {"steps": [a, b, c]}, [[], [(target, field)], []]
+
+
+def small_scope(full):
+    contexts = SMALL_CONTEXTS if full else SMALL_CONTEXTS[:8]
+    for field in SMALL_FIELDS:
+        for form in SMALL_FORMS:
+            for context in contexts:
+                for target in ("aaa", "bbb", "ccc", "ghost"):
+                    yield small_workflow(field, form, context, target)
+
+
+EVAL_CONTEXTS = ["{R}.v", "[{R}.v][0]", "{'k': {R}.v}.k", "has({R}.v) ? {R}.v : 0", "[1, 2].map(i, i + {R}.v)[0] - 1",
+                 "(true || false) ? {R}.v : 0", "int({R}.v)", "[{R}].map(s, s.v)[0]", "{R}.v + 0", "-(-{R}.v)",
+                 "{R}['v']", "size([{R}])"]
+
+
+def check_end_to_end(ctx, form, context):
+    """run a real two-step workflow whose second step's input is computed from the first step's value:
+    the reference is a recorded dependency iff the `steps` map holds the value at evaluation time"""
+    from koreo.workflow import prepare as wp, reconcile as wr
+    from koreo import result
+    from celpy import celtypes
+    e = "=" + context.replace("{R}", form % "aaa")
+    spec = {"steps": [{"label": "aaa", "ref": {"kind": "ValueFunction", "name": "vf-ok-b"}},
+                      {"label": "bbb", "ref": {"kind": "ValueFunction", "name": "vf-ok-a"}, "inputs": {"a": e}}]}
+    case = {"kind": "e2e", "spec": spec}
+    try:
+        out = loop().run_until_complete(wp.prepare_workflow("wf-e2e", copy.deepcopy(spec)))
+        wf, _ = out
+        res = loop().run_until_complete(wr.reconcile_workflow(
+            api=None, workflow_key="wf-e2e", owner=("o", celtypes.MapType({"uid": "u"})),
+            trigger=celtypes.MapType({}), workflow=wf))
+    except Exception as ex:  # noqa: BLE001
+        ctx.fail(Failure(signature=f"e2e: raises {type(ex).__name__}", what=f"{ex!r}", case=case))
+        return
+    ok = result.is_unwrapped_ok(res.result)
+    ctx.note_case(case, nontrivial=True)
+    ctx.count("e2e:" + ("ok" if ok else oclass(res.result)))
+    if not ok:
+        ctx.fail(Failure(signature="e2e: a step whose input references an earlier (Ok) step statically fails at run time",
+                         what=f"step bbb computes its input from steps.aaa ({e}) but the workflow result is {res.result}",
+                         case=case, observed=str(res.result)))
 
 
 def check_rf(ctx, spec, rest_ok):
@@ -1296,9 +1375,15 @@ def run(ctx: Ctx):
         # -- hand-written expressions (every grammar rule); names read off the text
         for src in HAND_CORPUS:
             add(ex_cases, ex_terms, check_expression(ctx, src, textual_refs(src), bucket="hand"))
+        for context in SMALL_CONTEXTS:                          # every context x every written form
+            for form in SMALL_FORMS:
+                for name in ("aaa", "b_1", "X9"):
+                    add(ex_cases, ex_terms, check_expression(
+                        ctx, context.replace("{R}", form % name), [name],
+                        bucket="context"))
 
         # -- generated expressions
-        n_expr = 900 if q else 12000
+        n_expr = 900 if q else 8000
         name_pool = LABEL_POOL + ["a", "B", "_", "x_y_z", "steps", "parent", "T" * 45]
         for i in range(n_expr):
             names = rng.sample(name_pool, rng.randint(1, 3))
@@ -1308,7 +1393,7 @@ def run(ctx: Ctx):
 
         # -- damaged trees
         dm_cases, dm_terms = [], []
-        n_dmg = 350 if q else 5000
+        n_dmg = 350 if q else 3000
         tries = 0
         while len(dm_cases) < n_dmg and tries < n_dmg * 4:
             tries += 1
@@ -1325,22 +1410,27 @@ def run(ctx: Ctx):
 
         # -- regexes
         rx_cases, rx_terms = [], []
-        for i in range(500 if q else 6000):
+        for i in range(500 if q else 5000):
             key = rng.choice(REGEX_HEADS) + "".join(rng.choice(REGEX_ALPHA) for _ in range(rng.randint(0, 7)))
             c, t = check_regex(ctx, key)
             rx_cases.append(c)
             rx_terms.append(t)
 
         # -- workflows
-        for i in range(260 if q else 3500):
+        for spec, planted in small_scope(full=not q):          # exhaustive small scope
+            add(wf_cases, wf_terms, check_workflow(ctx, spec, planted, bucket="small"))
+        for form in SMALL_FORMS:
+            for context in EVAL_CONTEXTS:
+                check_end_to_end(ctx, form, context)
+        for i in range(240 if q else 2000):
             spec, planted = gen_workflow(rng, weird=(i % 40 == 39))
             add(wf_cases, wf_terms, check_workflow(ctx, spec, planted))
 
         # -- resource functions / function tests
-        for i in range(100 if q else 1200):
+        for i in range(100 if q else 1000):
             spec, rest_ok = gen_rf(rng)
             add(misc_cases, misc_terms, check_rf(ctx, spec, rest_ok))
-        for i in range(60 if q else 600):
+        for i in range(60 if q else 400):
             add(misc_cases, misc_terms, check_ft(ctx, *gen_ft(rng)))
 
         if ctx.model_ok:
